@@ -193,7 +193,7 @@ impl<'a> Tr<'a> {
                         let k = ix.index as usize;
                         Ok(Out { pre: a.pre, term: format!("{}{}", a.term, Self::tuple_proj(ts.len(), k)), ty: ts[k].clone(), diverges: false })
                     }
-                    (syn::Member::Unnamed(ix), Ty::Adt(n, targs)) if n == "CmpWrapper" && targs.len() == 1 && ix.index == 0 => {
+                    (syn::Member::Unnamed(ix), Ty::Adt(n, targs)) if is_transparent_newtype(n) && targs.len() == 1 && ix.index == 0 => {
                         Ok(Out { pre: a.pre, term: a.term, ty: targs[0].clone(), diverges: false })
                     }
                     (m, Ty::Adt(n, targs)) => {
@@ -895,9 +895,9 @@ impl<'a> Tr<'a> {
             };
             return self.call_registered(fi, None, c.args.iter().collect(), turbofish, c.span());
         }
-        if last == "CmpWrapper" && c.args.len() == 1 {
+        if is_transparent_newtype(&last) && c.args.len() == 1 {
             let o = self.expr(&c.args[0], None)?;
-            let ty = Ty::Adt("CmpWrapper".into(), vec![o.ty.clone()]);
+            let ty = Ty::Adt(last.clone(), vec![o.ty.clone()]);
             return Ok(Out { pre: o.pre, term: o.term, ty, diverges: o.diverges });
         }
         // tuple struct constructor
@@ -1199,6 +1199,9 @@ impl<'a> Tr<'a> {
                 _ => {}
             }
         }
+        if matches!(rt, Ty::Char) && name == "len_utf8" && m.args.is_empty() {
+            return Ok(Out { pre: recv.pre, term: format!("(Rs.charLenUtf8 {})", recv.term), ty: usize_t, diverges: false });
+        }
         if let Ty::Option(_) = rt {
             match name.as_str() {
                 "is_some" => return Ok(Out { pre: recv.pre, term: format!("{}.isSome", recv.term), ty: Ty::Bool, diverges: false }),
@@ -1266,7 +1269,7 @@ impl<'a> Tr<'a> {
         }
         // user-defined inherent method
         if let Ty::Adt(adt0, adt_args) = &rt {
-            let adt = &if adt0 == "CmpWrapper" && adt_args.len() == 1 { format!("CmpWrapper<{}>", self.spec_key(&adt_args[0])) } else { adt0.clone() };
+            let adt = &if is_transparent_newtype(adt0) && adt_args.len() == 1 { format!("{}<{}>", adt0, self.spec_key(&adt_args[0])) } else { adt0.clone() };
             // inherent method of the receiver's type
             let cands: Vec<usize> = self
                 .idx
